@@ -514,6 +514,50 @@ func c18prop(ev *evid.Rec) func(rt *rapid.T) {
 					delete(s.root.kids, victim)
 					s.deletes++
 				},
+				"operatorAddsClientRemoves": func(rt *rapid.T) {
+					// the operator adds a category to the news file by hand and reloads; a client then deletes it again through the
+					// protocol.  The tree is back to what the server itself saved last - and the file must say so too.
+					s.rt = rt
+					name := "Added by the operator"
+					if _, taken := s.root.kids[name]; taken {
+						rt.Skip()
+					}
+					rec("operator adds %q to the file and reloads, a client deletes it", name)
+					path := filepath.Join(w.Cfg, "ThreadedNews.yaml")
+					b, err := os.ReadFile(path)
+					if err != nil {
+						s.fail("harness: %v", err)
+					}
+					var doc hotline.ThreadedNews
+					if err := yaml.Unmarshal(b, &doc); err != nil {
+						s.fail("harness: news file does not parse: %v", err)
+					}
+					if doc.Categories == nil {
+						doc.Categories = map[string]hotline.NewsCategoryListData15{}
+					}
+					doc.Categories[name] = hotline.NewsCategoryListData15{Type: [2]byte{0, 3}, Name: name, Articles: map[uint32]*hotline.NewsArtData{}, SubCats: map[string]hotline.NewsCategoryListData15{}}
+					out, err := yaml.Marshal(&doc)
+					if err != nil {
+						s.fail("harness: %v", err)
+					}
+					must(os.WriteFile(path, out, 0o644))
+					if err := w.News.Load(); err != nil {
+						s.fail("reload of the edited news file failed: %v", err)
+					}
+					if r := s.c.Request(hlref.TranDelNewsItem, newsPath([]string{name})); !okReply(r) {
+						s.fail("deleting the category the operator added: %s", replySummary(r))
+					}
+					fresh, err := verifhooks.NewThreadedNewsYAML(path)
+					if err != nil {
+						s.fail("a fresh store cannot load the news file: %v", err)
+					}
+					for _, c := range fresh.GetCategories(nil) {
+						if c.Name == name {
+							s.fail("the deletion of %q was acknowledged, but the news file still holds it (a restart brings it back)", name)
+						}
+					}
+					s.deletes++
+				},
 				"reload": func(rt *rapid.T) {
 					s.rt = rt
 					rec("reload")
